@@ -19,6 +19,8 @@ class Facts:
             self.fns[fn.path] = fn
         self.consts = {c["path"]: c for c in self.doc.get("consts", [])}
         self.adts = {a["path"]: a for a in self.doc["adts"]}
+        # enums of the crate: variant index -> discriminant value (what a `discriminant` read of an aggregate yields)
+        self.enum_discr = {a["path"]: {v["idx"]: v["discr"] for v in a.get("variants", [])} for a in self.doc["adts"] if a.get("kind") == "Enum" and a.get("variants")}
         self.impls = self.doc["impls"]
         self.statics = self.doc["statics"]
 
